@@ -28,9 +28,14 @@ What is proved here (**partial**):
   whatever `Front.tr` returns has, under every assignment, the value the Lean reference semantics
   `QV.Sem.semW` (`QV/Model/Sem.lean`) gives the expression.
 
-NOT proved: the statement level of `C01_statement` (Assign / Return / the definition list), tuples,
-`Qchar`, subscripts, and `SemW = Sem` (exact python integers) on in-range inputs; those are tied to
-the code by the correspondence and the oracle of `harness/c01.py` only.
+* the **statement level** on the straight-line fragment (`C01_body`), the exact python semantics against
+  the fixed-width one (`semW_eq_sem`, `semW_low_bits`), and their assembly `C01_straightline` (end of
+  this file).
+
+NOT proved: `C01_statement` for all programs – `if` / `for` (unrolled by `ast2ast`, which has no Lean
+model; the guarded assignments `d = b if c else d` it leaves for an `if` read their own target and are
+outside `straightLine`), tuples, `Qchar`, subscripts, and the rejection half; those are tied to the code by the
+correspondence and the oracle of `harness/c01.py` only.
 -/
 namespace QV.C01
 open QV QV.Arith QV.Front
@@ -39,12 +44,12 @@ open QV QV.Arith QV.Front
 program on an assignment of its argument bits: for every return bit either the bit the python function
 returns, or `none` where nothing is claimed – an intermediate left its range and the bit is not a low
 bit determined by wrap-around arithmetic; `none` for the whole row when python raises) and a predicate
-`InSubset` (the documented subset).  **Not proved.**  For the bool / Qint fragment the reference
-semantics now has a Lean definition (`QV.Sem.semProg`, compared with `harness/pysem.py` every run) and
-the expression level is proved (`C01_expr` below).  Missing for this statement: the induction over
-`trStmt` / `trBody` (that `Env.bind` + `decompose_to_symbols` keep `Sem.EnvOK` for the environment
-`runDefs` builds, and the `Return` coercion through `fill_spec` / `crop_spec`), every type other
-than bool / Qint, and the `none` = "nothing claimed" side (`SemW = Sem` under `inRange`). -/
+`InSubset` (the documented subset).  **Not proved in this generality.**  For straight-line programs over
+bool / Qint it is proved with `SemW p ρ := (Sem.semProgX p ρ).map Sem.XVal.claim`
+(`C01_statement_straightline` / `C01_straightline` at the end of this file).  Missing for the rest:
+`if` / `for` never reach `translate` – `ast2ast` unrolls loops and rewrites `if` into guarded assignments
+`d = b if c else d` (they read their own target, which `Sem.straightLine` excludes), and `ast2ast` has
+no Lean model; every type other than bool / Qint; the `InSubset` (rejection) half. -/
 def C01_statement
     (SemW : Prog → (String → Bool) → Option (List (Option Bool)))
     (InSubset : Prog → Prop) : Prop :=
@@ -413,7 +418,8 @@ assignment `t = e` (`t` dot-free, not `_ret`, `e` in `Sem.inFrag`, `e` does not 
 `return e` (`e` in `Sem.inFrag`), or an expression statement.  Augmented assignments and
 self-referencing assignments reach the translator in exactly this form: `ast2ast` rewrites `a += e`
 and `a = f(a)` into `__a = …; a = __a`.  `if` / `for` are unrolled by `ast2ast`, which has no Lean
-model (see `C01_statement`). -/
+model (see `C01_statement`); the guarded assignment `d = b if c else d` it leaves for an `if` reads its
+own target (each bit only its own old bit) and is NOT in the fragment. -/
 
 /-- **C01_body** – the statement level.  If the model of `translate_ast` (`Front.translate`, all listed
 defects repaired) accepts a straight-line program with definition list `defs`, then for every
